@@ -86,6 +86,30 @@ func VerifC09_NameRule() {
 	}
 	verifrt.Assert(!protocol.IsValidTopicName(string(long)), "65-chars-invalid")
 	verifrt.Assert(protocol.IsValidTopicName(string(long[:64])), "64-chars-valid")
+	// the 64-byte limit counts the whole name, "#ephemeral" suffix included: every total length
+	// around the limit, with and without the suffix, with one symbolic character in the base
+	total := 50 + verifrt.Choice("total-length", 30) // 50..79
+	withSuffix := verifrt.Choice("ephemeral-suffix", 2) == 1
+	nm := make([]byte, 0, 80)
+	base := total
+	if withSuffix {
+		base = total - 10
+	}
+	ch := verifrt.Byte("base-char")
+	for i := 0; i < base; i++ {
+		if i == 1 {
+			nm = append(nm, ch)
+		} else {
+			nm = append(nm, 'a')
+		}
+	}
+	if withSuffix {
+		nm = append(nm, []byte("#ephemeral")...)
+	}
+	verifrt.Assert(protocol.IsValidTopicName(string(nm)) == verifValidNameRef(nm), "name-length-limit-counts-the-ephemeral-suffix")
+	verifrt.Assert(protocol.IsValidChannelName(string(nm)) == verifValidNameRef(nm), "channel-name-length-limit-counts-the-ephemeral-suffix")
+	verifrt.Reach("overlong-ephemeral-name", withSuffix && total > 64)
+	verifrt.Reach("longest-ephemeral-name", withSuffix && total == 64 && verifValidNameRef(nm))
 }
 
 // PUB / DPUB with ANY topic bytes, ANY 4-byte size and ANY following bytes (also truncated):
@@ -103,7 +127,9 @@ func verifC09PubFraming() {
 	verifrt.AllocLimit(int(o.MaxMsgSize))
 	topic := verifrt.Bytes("topic", 2)
 	wire := verifrt.Bytes("wire", verifrt.Bound("wire", 8, 10))
-	c, _ := verifClient(n, 1, wire)
+	c, conn := verifClient(n, 1, wire)
+	// the bytes arrive all at once, or one byte per read (several TCP segments)
+	conn.in.chunk = verifrt.Choice("segment", 2)
 	p := &protocolV2{nsqd: n}
 	dpub := verifrt.Choice("cmd", 2) == 1
 	var resp []byte
@@ -171,7 +197,8 @@ func verifC09Mpub() {
 	n := verifShellNSQD(o)
 	verifrt.AllocLimit(int(o.MaxBodySize))
 	wire := verifrt.Bytes("wire", verifrt.Bound("wire", 20, 22))
-	c, _ := verifClient(n, 1, wire)
+	c, conn := verifClient(n, 1, wire)
+	conn.in.chunk = verifrt.Choice("segment", 2)
 	p := &protocolV2{nsqd: n}
 	resp, err := p.Exec(c, [][]byte{[]byte("MPUB"), []byte("t")})
 
